@@ -30,7 +30,7 @@ NS = {
     "style": "urn:oasis:names:tc:opendocument:xmlns:style:1.0",
 }
 ALL_FEATURES = ["colruns", "rowruns", "s-single", "s-noc", "paragraphs", "spans", "emptyp", "stored", "utf16",
-                "latin1", "colstyle", "trailing-empty-run", "annotations", "embedded-object"]
+                "latin1", "colstyle", "trailing-empty-run", "annotations", "embedded-object", "links"]
 
 
 def _escape(text):
@@ -88,6 +88,10 @@ def _paragraph_content(text, features, used):
         elif "spans" in features and part:
             content = '<text:span text:style-name="T1">%s</text:span>' % content
             used.add("text:span")
+        if "links" in features and part:
+            # what a spreadsheet program makes of a typed URL or e-mail address: the text sits inside a link element
+            content = '<text:a xlink:type="simple" xlink:href="http://example.org/">%s</text:a>' % content
+            used.add("text:a")
         encoded.append(content)
     return encoded
 
@@ -143,7 +147,7 @@ def content_xml(sheets, features, used=None, repeats=None):
     """content.xml text (str).  ``repeats`` optionally overrides repeat attributes for fault tests."""
     used = used if used is not None else set()
     out = ['<office:document-content xmlns:office="%s" xmlns:table="%s" xmlns:text="%s" xmlns:style="%s" '
-           'xmlns:dc="http://purl.org/dc/elements/1.1/" office:version="1.2">' % (
+           'xmlns:dc="http://purl.org/dc/elements/1.1/" xmlns:xlink="http://www.w3.org/1999/xlink" office:version="1.2">' % (
                NS["office"], NS["table"], NS["text"], NS["style"]),
            "<office:body><office:spreadsheet>"]
     for sheet_index, table in enumerate(sheets):
